@@ -348,6 +348,9 @@ ARGS_LOOP:
 		// parents so it marks them as an unknown option that needs to be used at a
 		// different level. It is as if it was ignoring getoptions.Pass.
 		if optPair, is := isOption(iterator.Value(), mode, false); is {
+			// A bundled option that takes an argument moves the iterator, keep the CLI argument being handled.
+			cliArg := iterator.Value()
+			cliArgPassed := false
 
 			// iterate over the possible cli args and try matching against expectations
 			for _, p := range optPair {
@@ -365,12 +368,16 @@ ARGS_LOOP:
 						break ARGS_LOOP
 					}
 					// TODO: This shouldn't append new children but update existing ones and isOption needs to be able to check if the option expects a follow up argument.
-					opt := newUnknownCLIOption(currentProgramNode, p.Option, iterator.Value(), p.Args...)
+					opt := newUnknownCLIOption(currentProgramNode, p.Option, cliArg, p.Args...)
 					currentProgramNode.UnknownOptions = append(currentProgramNode.UnknownOptions, opt)
 
 					switch currentProgramNode.unknownMode {
 					case Pass, Warn:
-						currentProgramNode.ChildText = append(currentProgramNode.ChildText, iterator.Value())
+						// A CLI argument with several unknown bundled options is passed through only once.
+						if !cliArgPassed {
+							currentProgramNode.ChildText = append(currentProgramNode.ChildText, cliArg)
+							cliArgPassed = true
+						}
 					}
 					continue
 				}
